@@ -984,6 +984,36 @@ r3:
 				fill = z && inc
 			}
 		}
+		if !(okK && fill) && len(gk) > 0 {
+			// the append form: an empty slice gets every key of kinds appended, once per iteration, and is what is answered
+			A := make([]bool, len(g.ins))
+			for i, in := range g.ins {
+				if c, isC := in.(*ssa.Call); isC {
+					if vals := w.appended(c); len(vals) == 1 && w.pathOf(vals[0]) == "next(range(P0.kinds))#1" && g.OnlyVia(gk, i) {
+						A[i] = true
+					}
+				}
+			}
+			if anyOf(A) {
+				rg := g.region(gk)
+				oldCur := w.cur
+				RA := make([]bool, len(rg.ins))
+				for i, in := range rg.ins {
+					if gi, ok := g.idx[in]; ok && A[gi] {
+						RA[i] = true
+					}
+				}
+				if w.rangeLoopEvery(rg, "P0.kinds", RA) {
+					for _, ci := range w.callsIn(a.recv, EvCall("Respond", respond)) {
+						n := g.idx[ci.(ssa.Instruction)]
+						if g.OnlyVia(gk, n) && w.accumulates(g, ci.Common().Args[1], A) {
+							okK, fill = true, true
+						}
+					}
+				}
+				w.cur = oldCur
+			}
+		}
 		r.Check(okK && fill, "C18.R5", fname(a.recv)+":getKinds", "getKinds is answered with the keys of kinds", w.fnPos(a.recv), "HasKind is not answered from the kinds map")
 		cm := w.Method("cluster", "Cluster", "Members")
 		hk := w.Method("cluster", "Cluster", "HasKind")
